@@ -326,6 +326,34 @@ def cursorStep (c : Nat) : SimOp → Nat
 /-- number of `bufferData` calls since the last reset (or since construction) -/
 def bufCount (ops : List SimOp) : Nat := ops.foldl cursorStep 0
 
+/-! ### Specification of the serving protocol ("served in order, restarting on reset")
+
+The abstract machine knows nothing of the stored trajectory: it counts.  `served` is the number of
+states handed out since the last reset, `last` the index of the state `getData` shows (the last one
+handed out — a reset does not clear it). -/
+structure SimSpec where
+  served : Nat
+  last : Option Nat
+  deriving DecidableEq, Repr
+
+def SimSpec.step (L : Nat) (a : SimSpec) : SimOp → SimSpec × SimOut Nat
+  | .buffer => if a.served < L then ({ served := a.served + 1, last := some a.served }, .flag true) else (a, .flag false)
+  | .get => (a, .data a.last)
+  | .reset => ({ a with served := 0 }, .flag true)
+  | .other => (a, .flag false)
+
+def SimSpec.run (L : Nat) (a : SimSpec) : List SimOp → SimSpec × List (SimOut Nat)
+  | [] => (a, [])
+  | op :: ops =>
+    let (a1, o) := a.step L op
+    let (a2, os) := SimSpec.run L a1 ops
+    (a2, o :: os)
+
+/-- an answer of the specification (an index) read as an answer of the object (the state with that index) -/
+def SimOut.mapIdx {σ : Type} (traj : Nat → σ) : SimOut Nat → SimOut σ
+  | .flag b => .flag b
+  | .data d => .data (d.map traj)
+
 /-! ## Simulated linear sensor -/
 
 section sensor
